@@ -27,7 +27,9 @@ RULE = ('Hypothesis RuleBasedStateMachine histories over CompactCacheV1 and Comp
         'stores of meta-tile blocks (inside one bundle and straddling the 127/128 bundle border), overwrites of '
         'present tiles, removes of present / absent tiles (single and bulk), remove of a whole level, reopen, '
         'single and bulk read probes and defragmentation with generated --min-percent / --min-mb / --dry-run '
-        'values incl. 0; payloads of 1 byte .. 40 KB (thorough: 300 KB) incl. sizes around 2^8, 2^12 and 2^16; '
+        'values incl. 0; every history has 1-4 anchor bundles (row / column neighbours and other levels) and a pool of '
+        '2-4 relative slots shared by them (mirrored stores / removes put tiles at the same index position, and at '
+        'the v1 index successor row+1, of several bundles that one defrag run rewrites); payloads of 1 byte .. 40 KB (thorough: 300 KB) incl. sizes around 2^8, 2^12 and 2^16; '
         'several bundles and levels per history incl. bundle rows / columns >= 65536 (5 hex digit file names). '
         'After every step all bundle files are parsed by an independent format reader and compared with a dict '
         'model; around defrag the cache API answers and all file sizes are compared. A history is non-trivial '
@@ -471,6 +473,7 @@ class Harness(object):
                   dry_run=bool(step.get('dry_run')), log_progress=defrag.DefragLog('c19'))
         after = scan(self.cache_dir)
         rewrote = deleted = 0
+        rewritten = []
         for rel, p in sorted(after.items()):
             size = os.path.getsize(p)
             if rel not in before:
@@ -483,6 +486,7 @@ class Harness(object):
                 return self.violation('defrag', 'file-grew', '%s grew from %d to %d bytes' % (rel, before[rel][0], size))
             if os.stat(p).st_ino != before[rel][1] and rel.endswith('.bundle'):
                 rewrote += 1
+                rewritten.append(rel[:-len('.bundle')])
                 if size < before[rel][0]:
                     st_.classes['defrag:bundle-shrank'] += 1
         for rel in before:
@@ -492,6 +496,22 @@ class Harness(object):
             for rel, (size, ino, data) in sorted(before.items()):
                 if rel not in after or read_file(after[rel]) != data:
                     return self.violation('defrag', 'dry-run-modified', 'dry run changed %s' % rel)
+        if rewrote >= 2:
+            # several bundles rewritten by ONE run; do they hold tiles at the same index position?
+            st_.classes['defrag:>=2-bundles-rewritten-in-one-run'] += 1
+            slots = {}
+            for c in self.model:
+                base = bundle_relbase(c)
+                if base in rewritten:
+                    slots.setdefault((c[0] % GRID, c[1] % GRID), set()).add(base)
+            shared = [b for b in slots.values() if len(b) >= 2]
+            if shared:
+                st_.classes['defrag:same-slot-in->=2-rewritten-bundles'] += 1
+                if any(len(set(b.split('/')[0] for b in bs)) >= 2 for bs in shared):
+                    st_.classes['defrag:same-slot-across-levels'] += 1
+                if any(len(bs) > len(set(b.split('/')[0] for b in bs)) for bs in shared):
+                    st_.classes['defrag:same-slot-across-rows/columns'] += 1
+                self.flags.add('defrag-shared-slot')
         st_.classes['defrag:rewrote-bundles'] += rewrote
         st_.classes['defrag:deleted-empty-bundles'] += deleted
         if not rewrote and not deleted:
@@ -547,23 +567,30 @@ ANCHOR_INDEX = {0: [0], 1: [0], 2: [0], 7: [0], 8: [0, 1], 9: [0, 1, 2, 3], 12: 
 
 @st.composite
 def anchors(draw):
+    """context of one history: a few anchor bundles (neighbours in the same level and bundles of other levels)
+    and a small pool of relative slots (col, row) that is shared by all of them, so that several bundles hold
+    tiles at the same position of their index"""
+    inner = st.one_of(st.sampled_from(INNER), st.integers(0, 127))
     z = draw(st.sampled_from(LEVELS + [8, 9, 12, 12]))
     idx = ANCHOR_INDEX[z]
     first = (draw(st.sampled_from(idx)), draw(st.sampled_from(idx)), z)
     out = [first]
-    for _ in range(draw(st.integers(0, 2))):
-        kind = draw(st.integers(0, 2))
+    for _ in range(draw(st.sampled_from([0, 1, 1, 2, 2, 3]))):
+        kind = draw(st.integers(0, 3))
         bx, by, z0 = first
         nb = 2 ** z0 // GRID
         if kind == 0 and bx + 1 < nb:
-            out.append((bx + 1, by, z0))           # east neighbour: blocks straddle the border
+            cand = (bx + 1, by, z0)                # east neighbour: blocks straddle the border
         elif kind == 1 and by + 1 < nb:
-            out.append((bx, by + 1, z0))
+            cand = (bx, by + 1, z0)
         else:
             z = draw(st.sampled_from(LEVELS))
             idx = ANCHOR_INDEX[z]
-            out.append((draw(st.sampled_from(idx)), draw(st.sampled_from(idx)), z))
-    return out
+            cand = (draw(st.sampled_from(idx)), draw(st.sampled_from(idx)), z)
+        if cand not in out:
+            out.append(cand)
+    slots = draw(st.lists(st.tuples(inner, inner), min_size=2, max_size=4))
+    return {'bundles': out, 'slots': slots}
 
 
 def axis():
@@ -578,16 +605,37 @@ def coords(draw):
         x, y = draw(axis()), draw(axis())
         z = draw(st.sampled_from([l for l in LEVELS if 2 ** l > max(x, y)]))
         return ('free', x, y, z)
-    inner = st.one_of(st.sampled_from(INNER), st.integers(0, 127))
-    return ('anchor', draw(st.integers(0, 5)), draw(inner), draw(inner))
+    if kind <= 5:
+        inner = st.one_of(st.sampled_from(INNER), st.integers(0, 127))
+        return ('anchor', draw(st.integers(0, 5)), draw(inner), draw(inner))
+    # a slot of the shared pool (or its successor in v1 index order, row + 1) in one of the anchor bundles
+    return ('slot', draw(st.integers(0, 5)), draw(st.integers(0, 3)), draw(st.sampled_from([0, 0, 0, 1])))
 
 
-def resolve(spec, anchor_list):
+def resolve(spec, ctx):
     if spec[0] == 'free':
         return tuple(spec[1:])
-    bx, by, z = anchor_list[spec[1] % len(anchor_list)]
+    bundles = ctx['bundles']
+    bx, by, z = bundles[spec[1] % len(bundles)]
     lim = 2 ** z - 1
-    return (min(bx * GRID + spec[2], lim), min(by * GRID + spec[3], lim), z)
+    if spec[0] == 'slot':
+        ox, oy = ctx['slots'][spec[2] % len(ctx['slots'])]
+        oy = min(oy + spec[3], GRID - 1)
+    else:
+        ox, oy = spec[2], spec[3]
+    return (min(bx * GRID + ox, lim), min(by * GRID + oy, lim), z)
+
+
+def mirrored(slot_pick, dy, skip, ctx):
+    """the same relative slot in every anchor bundle (optionally all but one)"""
+    out = []
+    for i in range(len(ctx['bundles'])):
+        if len(ctx['bundles']) > 2 and i == skip:
+            continue
+        c = resolve(('slot', i, slot_pick, dy), ctx)
+        if c not in out:
+            out.append(c)
+    return out
 
 
 def sizes(tier):
@@ -612,7 +660,7 @@ def blocks(draw):
 def block(spec, anchor_list):
     c, w, h, drop = spec
     x0, y0, z = resolve(c, anchor_list)
-    if c[0] == 'anchor' and c[2] >= 125:
+    if c[0] == 'anchor' and c[2] >= 125 or c[0] == 'slot' and x0 % GRID >= 125:
         x0 = max(0, x0 - (w // 2))      # let wide blocks start left of the border
     out = [(x, y, z) for y in range(y0, y0 + h) for x in range(x0, x0 + w) if max(x, y) < 2 ** z]
     kept = [c for i, c in enumerate(out) if i not in drop]
@@ -669,6 +717,21 @@ def make_machine(tier):
         @rule(c=coords(), size=sizes(tier), tag=TAGS)
         def store(self, c, size, tag):
             self.do({'op': 'store', 'tiles': [list(resolve(c, self.anchor_list)) + [size, tag]]})
+
+        @rule(slot=st.integers(0, 3), dy=st.sampled_from([0, 0, 0, 1]), skip=st.integers(0, 5),
+              sz=st.lists(sizes(tier), min_size=4, max_size=4), tag=TAGS, bulk=st.booleans())
+        def store_mirrored(self, slot, dy, skip, sz, tag, bulk):
+            """the same relative slot in all anchor bundles: stores first, overwrites (fragmentation) when repeated"""
+            cs = mirrored(slot, dy, skip, self.anchor_list)
+            self.do({'op': 'store', 'bulk': bulk and len(cs) > 1,
+                     'tiles': [list(c) + [sz[i % 4], tag + i] for i, c in enumerate(cs)]})
+
+        @precondition(lambda self: self.h is not None and self.h.model)
+        @rule(slot=st.integers(0, 3), dy=st.sampled_from([0, 0, 1]), skip=st.integers(0, 5), bulk=st.booleans())
+        def remove_mirrored(self, slot, dy, skip, bulk):
+            cs = self.removable(mirrored(slot, dy, skip, self.anchor_list))
+            if cs:
+                self.do({'op': 'remove', 'bulk': bulk, 'coords': [list(c) for c in cs]})
 
         @rule(cs=blocks(), sz=st.lists(sizes(tier), min_size=16, max_size=16), tag=TAGS, bulk=st.booleans())
         def store_block(self, cs, sz, tag, bulk):
